@@ -129,6 +129,17 @@ CHECKS['C17'] = dict(
          'generator draw by draw. Fixed seeds make the statistical bound deterministic on an unchanged tree.',
     technique='exhaustive decision-table enumeration + seeded history metamorphic tests + Hypothesis generated histories')
 
+CHECKS['C09'] = dict(
+    engine='progsim', category='exploration', design='DESIGN.md 3 C09',
+    text='Hypothesis rule-based state machine over ONE recorder and two long-lived worker threads: generated programs '
+         'ending in every way (return, exception, interrupt incl. on a pool thread, discard, sampled out, forced, '
+         'capture/save/extractor failures), replays that succeed or fail (missing id, missing key, failing or '
+         'interrupted playback function), enable/disable; idle flags after every rule and a PROBE program whose '
+         'recording and Playback on the used recorder must equal those on a fresh recorder.',
+    note='Probe comparison excludes ids, duration, timestamp and the class object; the enable switch is modelled '
+         '(only explicit API calls may change it).',
+    technique='Hypothesis stateful testing; differential of a probe run against a fresh recorder')
+
 ENGINES = [
     ('progsim', 'pbt/progsim.py', 'program simulator: JSON program descriptions -> real decorated classes, undecorated '
                                   'twin, journals, fault injection, program strategies', ['C01', 'C02', 'C03', 'C04',
